@@ -79,6 +79,12 @@ def faults(text, sp, full_truncation):
             yield "stray-text", text[:b] + "junk" + text[b:]
             yield "stray-text", text[:b] + " \n junk " + text[b:]
     root = sp[0][1]
+    # in front of the root
+    yield "stray-end-tag", "</ZZ>" + text
+    yield "stray-end-tag", "</" + root + ">" + text
+    yield "second-top-level-element", "<ZZ>1</ZZ>" + text
+    yield "second-top-level-element", "<ZZ></ZZ>\r\n" + text
+    yield "end-tag-deleted", "<ZZ>" + text
     yield "second-top-level-element", text + "<" + root + "></" + root + ">"
     yield "second-top-level-element", text + "\n<ZZ>1</ZZ>"
     yield "second-top-level-element", text + text
@@ -100,6 +106,20 @@ def lib_parse(text, sgml):
     return t.parse(io.BytesIO((head + text).encode("utf_8")))
 
 
+_REUSED = {}
+
+
+def lib_parse_reused(text, sgml):
+    """an OFXTree that has parsed a well-formed file before (and every faulty text since)"""
+    from ofxtools.Parser import OFXTree
+
+    head = H.render_v1(H.v1_fields(102, encoding="UTF-8", charset="NONE")) if sgml else H.render_v2(H.v2_fields(203))
+    if sgml not in _REUSED:
+        _REUSED[sgml] = OFXTree()
+        _REUSED[sgml].parse(io.BytesIO((head + "<OFX><SIGNONMSGSRSV1><SONRS><A>earlier document</A></SONRS></SIGNONMSGSRSV1></OFX>").encode("utf_8")))
+    return _REUSED[sgml].parse(io.BytesIO((head + text).encode("utf_8")))
+
+
 def check_text(t, rendering, kind, faulty, case_fn):
     try:
         ref_sgml.build(faulty)
@@ -109,7 +129,7 @@ def check_text(t, rendering, kind, faulty, case_fn):
         pass
     t.count("evaluations")
     t.count("faulty-texts")
-    for route, fn in (("feed", lambda: lib_feed(faulty)), ("parse", lambda: lib_parse(faulty, rendering == "sgml"))):
+    for route, fn in (("feed", lambda: lib_feed(faulty)), ("parse", lambda: lib_parse(faulty, rendering == "sgml")), ("parse-by-a-reused-OFXTree", lambda: lib_parse_reused(faulty, rendering == "sgml"))):
         try:
             r = fn()
         except Exception:
@@ -251,8 +271,8 @@ def run(ctx):
                  "all trees <=4 nodes with <=1 non-default leaf (every byte truncation) + the remaining 4-node trees (token-level truncations)") +
         f" over the C02 alphabets, in XML and SGML rendering and (two or more data elements) with every data element CDATA-wrapped, + MIN/MAXS{'/MAXD' if ctx.thorough else ''} documents of {len(ROOTS)} realistic roots; x every single fault: "
         "truncation, each aggregate end tag deleted / duplicated / misspelled (2 ways) / replaced by every other element's name, adjacent end tags transposed, stray end "
-        "tag (2) or stray text (2) after every end tag, second top-level element (3); faulty texts the strict reference reader still accepts are skipped; each remaining text "
-        "goes through TreeBuilder.feed+close and OFXTree.parse; + files parsed by path: every same-length fault of the documents written over the well-formed file "
+        "tag (2) or stray text (2) after every end tag, second top-level element (3 behind, 2 in front of the root), stray end tag / unclosed start tag in front of the root; faulty texts the strict reference reader still accepts are skipped; each remaining text "
+        "goes through TreeBuilder.feed+close, OFXTree.parse, and the parse of an OFXTree that has read a well-formed file before; + files parsed by path: every same-length fault of the documents written over the well-formed file "
         "(same path, size and modification time) after that one was parsed; distinct_nontrivial = malformed texts",
         "bodies": tally.counts.get("bodies", 0),
         "skipped_still_well_formed": tally.counts.get("still-well-formed", 0),
